@@ -269,12 +269,16 @@ func (cm *contractManager) PrepareContractStore(
 	hashStr := string(codeHash)
 	cs := &contractStoreImpl{ch: make(chan error, 1)}
 	if cacheInfo, ok := cm.storageCache[hashStr]; ok {
-		if cacheInfo.status != csComplete {
+		// status and path are written by complete() under the cache's own lock
+		cacheInfo.lock.Lock()
+		cacheStatus, cachePath := cacheInfo.status, cacheInfo.path
+		cacheInfo.lock.Unlock()
+		if cacheStatus != csComplete {
 			cacheInfo.push(cs)
 			cm.lock.Unlock()
 			return cs, nil
 		}
-		if _, err := os.Stat(cacheInfo.path); !os.IsNotExist(err) {
+		if _, err := os.Stat(cachePath); !os.IsNotExist(err) {
 			cacheInfo.push(cs)
 			cs.ch <- nil
 			cm.lock.Unlock()
